@@ -108,6 +108,8 @@ pub fn run(rep: &mut Rep) {
         }
         add_counters(rep, &s.w);
     }
+    // messages addressed to dropped and live streams at once (every subset, both identifier orders): acknowledged all the same
+    super::c15::dropped_streams_next_to_live_ones(rep, false);
     // large packets in front of small ones, everything available at once, reads limited to a cap: acknowledgements of
     // what follows a large packet (whole or partly in the same read) must come out one-to-one, in order
     let sizes: Vec<usize> = if rep.quick() { vec![0, 1, 2, 100, 600, 1500, 4000, 4097, 5000, 9000, 20_000, 70_000, 2_097_100, 2_097_140, 2_097_152, 2_100_000] } else { (0..130).chain((3900..4300).step_by(7)).chain([600, 1500, 8191, 8192, 8193, 9000, 16_384, 20_000, 65_536, 70_000, 300_000, 2_097_100, 2_097_130, 2_097_140, 2_097_152, 2_100_000, 5_000_000]).collect() };
